@@ -101,7 +101,18 @@ fn nested_family(seed: u64) -> String {
     s
 }
 
+/// grammars for which the pager leaves unreachable states behind, so that its garbage collection renumbers states
+const GC_GRMS: &[&str] = &[
+    "%start S\n%%\nS: 'a' 'a' A | A 'b' | ;\nA: 'a' S 'a' | 'a' 'b';",
+    "%start S\n%%\nS: A 'a' | B 'a' 'b' | 'c' B;\nA: 'c' S 'd' | A | A;\nB: A | 'd' 'b' B;",
+    "%start S\n%%\nS: 'a' B A | 'a' 'b' 'b' | B S;\nA: ;\nB: 'a' S 'd' | | A;",
+];
+
 pub fn search_tables(tier: &str) -> Option<Value> {
+    for g in GC_GRMS {
+        let o = run_tables(g, 40);
+        if o.fails { return Some(witness("c15_tables", json!({"grammar": g}), &o)); }
+    }
     let n = if tier == "thorough" { 20000 } else { 1500 };
     for seed in 1..=n {
         for g in [crate::grms::random_larger(seed), crate::c02::crossed_family(seed), nested_family(seed)] {
